@@ -522,6 +522,7 @@ func main() {
 		r.Violate(prop+"/worker-died/"+firstWords(panicLine(tail)), fmt.Sprintf("worker %d died while running %s:\n%s", i, journal, clip(tail)), map[string]string{"case": journal})
 	})
 	compressLocalNotes(r)
+	lMergeHeights(r)
 	lSelfCheck(r)
 	core.Finish(r)
 }
